@@ -135,7 +135,7 @@ def replay_relax(model, cls="SinglePhaseReservoir", nx=3):
 
 # ------------------------------------------------------------------ symbolic runs
 
-def _sim(mod, cls, nx, nt, schedule, policy, const_drawdown=True, tdtype="f8", repeat_first=False):
+def _sim(mod, cls, nx, nt, schedule, policy, const_drawdown=True, tdtype="f8", repeat_first=False, tseries=False):
     """Run the real simulate once; returns (reservoir, fluid, time array, m_f list)."""
     SS.LinSolve.reset(policy)
     SS.reset_names()
@@ -145,6 +145,10 @@ def _sim(mod, cls, nx, nt, schedule, policy, const_drawdown=True, tdtype="f8", r
         t = SymArray([t.d[0]] + list(t.d[:-1]), "f8")
     if tdtype != "f8":
         t = SymArray(list(t.d), tdtype)
+    if tseries:
+        # the time column of a production DataFrame (a pandas Series with the default labels 0..nt-1)
+        from ..shims.pd_shim import SymSeries
+        t = SymSeries(list(t.d), t.dtype_tag, list(range(nt)))
     if cls == "IdealReservoir":
         res = mod.IdealReservoir(Q(nx), fresh("pf"), fresh("pi", pos=True), None)
         res.simulate(t)
@@ -263,6 +267,63 @@ def replay_inttime(model, nx=3):
     bad = lowest < m_f - 1e-9 * m_i
     return bad, {"what": f"SinglePhaseReservoir on the integer time grid {t[:4].tolist()}.. ({t.dtype}), p_f={pf}, p_i=8000: lowest simulated value {lowest!r} "
                          f"vs frac-face pseudopressure {m_f!r} (below it by {(m_f - lowest) / (m_i - m_f):.1%} of the drawdown)", "inputs": {}}
+
+
+def replay_series_time(model, cls="SinglePhaseReservoir", nx=3):
+    """Real run with the time grid passed as a pandas Series (the 'Days' column of a production table, as
+    plot_production_comparison passes it): every value inside the bounds, same field as with the plain array."""
+    import numpy as np
+    import pandas as pd
+    from bluebonnet.flow import reservoir as rr
+    from .c04 import _real_fluid
+    t = np.linspace(0, 1.5, 12) ** 2
+    if cls == "IdealReservoir":
+        a, b = rr.IdealReservoir(max(nx, 6), 1000.0, 8000.0, None), rr.IdealReservoir(max(nx, 6), 1000.0, 8000.0, None)
+        lo, hi = 0.0, 1.0
+    else:
+        fluid = _real_fluid()
+        a, b = rr.SinglePhaseReservoir(max(nx, 6), 1000.0, 8000.0, fluid), rr.SinglePhaseReservoir(max(nx, 6), 1000.0, 8000.0, fluid)
+        lo, hi = float(fluid.m_scaled_func(1000.0)), float(fluid.m_i)
+    a.simulate(t)
+    try:
+        b.simulate(pd.Series(t))
+    except Exception as ex:  # noqa: BLE001
+        return True, {"what": f"{cls}.simulate raised {ex!r} for a time grid passed as a pandas Series", "inputs": {}}
+    pa, pb = np.asarray(a.pseudopressure, float), np.asarray(b.pseudopressure, float)
+    problems = []
+    if not np.all(np.isfinite(pb)) or pb.min() < lo - 1e-7 * hi or pb.max() > hi * (1 + 1e-7):
+        problems.append(f"values in [{np.nanmin(pb) if np.any(np.isfinite(pb)) else float('nan')!r}, {np.nanmax(pb) if np.any(np.isfinite(pb)) else float('nan')!r}] "
+                        f"({int(np.sum(~np.isfinite(pb)))} not finite) outside [{lo!r}, {hi!r}]")
+    elif np.abs(pa - pb).max() > 1e-9 * hi:
+        problems.append(f"field differs from the one for the same grid as a plain array by {np.abs(pa - pb).max():.3e}")
+    return bool(problems), {"what": f"{cls}, time grid as a pandas Series: " + ("; ".join(problems) or "within bounds, same field"), "inputs": {}}
+
+
+def job_bounds_series(job, cls, nx):
+    """The bounds for a time grid handed over as a pandas Series with default labels (label-based element access,
+    label-aligned arithmetic): three levels from the initial state."""
+    job.solve_defaults = {"abstract": True}
+    mod = load_reservoir()
+    job.encoded(mod, f"{cls}.simulate")
+    job.stub("pandas Series: label-based element access, positional slices that keep their labels, label-aligned arithmetic (NaN where a label is missing)")
+    tag = f"{cls}[nx={nx},scalar,time grid as a pandas Series]"
+    rp = (replay_series_time, {"cls": cls, "nx": nx})
+    for k, pr in enumerate(paths(job, lambda: _sim(mod, cls, nx, 3, False, policy_exact(), tseries=True), [], max_paths=16, catch=(Exception,))):
+        if pr.exc is not None:
+            job.prove(f"{tag}/raises {type(pr.exc).__name__}[path{k}]", pr.pc, bound=f"nx={nx}", replay=rp, note=repr(pr.exc)[:100])
+            continue
+        r, fluid, t, mf = pr.value
+        rows = rows_of(r)
+        for lev in (1, 2):
+            lo, hi = _lo_hi(fluid, mf, lev)
+            if any(getattr(x, "__sx_nan__", False) for x in rows[lev]):
+                job.prove(f"{tag}/level {lev} has no missing values[path{k}]", pr.pc, bound=f"nx={nx}", replay=rp)
+                continue
+            if lev == 2 and job.tier == "quick":
+                continue        # the second level from the initial state through two exact solves: thorough tier
+            job.prove(f"{tag}/level {lev} within [frac-face value, initial][path{k}]", pr.pc + [_outside(rows[lev], lo, hi)],
+                      bound=f"nx={nx}, any dt>0, time grid a Series", replay=rp)
+        job.prove(f"{tag}/reach[path{k}]", pr.pc, expect="sat")
 
 
 def job_bounds_inttime(job, nx):
@@ -627,6 +688,8 @@ def jobs(tier):
         for nx in ((3, 4) if tier == "quick" else (3, 4, 6, 8)):
             out.append((f"fixed-{cls[:6]}-{nx}", lambda j, c=cls, n=nx: job_fixed_point(j, c, n)))
     out.append(("bounds-inttime-3", lambda j: job_bounds_inttime(j, 3)))
+    for cls in ("SinglePhaseReservoir", "IdealReservoir"):
+        out.append((f"bounds-series-time-{cls[:6]}-3", lambda j, c=cls: job_bounds_series(j, c, 3)))
     for cls in ("SinglePhaseReservoir", "IdealReservoir"):
         out.append((f"repeat-{cls[:6]}-3", lambda j, c=cls: job_bounds_repeat(j, c, 3)))
     for cls in ("SinglePhaseReservoir", "IdealReservoir"):
